@@ -149,16 +149,16 @@ fn emit_script(rng: &mut Rng, cls: &str) {
     let valid = stmts.iter().all(|s| parses_as_one(s));
     let mut script = String::new();
     for (i, s) in stmts.iter().enumerate() {
-        script.push_str(rng.pick(WS));
+        script.push_str(*rng.pick(WS));
         script.push_str(s);
-        script.push_str(rng.pick(WS));
+        script.push_str(*rng.pick(WS));
         if i + 1 < n || rng.chance(2, 3) {
             script.push(';');
             // now and then an empty statement
-            if rng.chance(1, 6) { script.push_str(rng.pick(WS)); script.push(';'); }
+            if rng.chance(1, 6) { script.push_str(*rng.pick(WS)); script.push(';'); }
         }
     }
-    script.push_str(rng.pick(WS));
+    script.push_str(*rng.pick(WS));
     let want: Vec<String> = stmts.iter().map(|s| format!("{};", s.trim())).collect();
     match run_split(&script) {
         Ok(got) => {
